@@ -2,6 +2,7 @@
 """Module containing simulation result classes."""
 
 import copy
+import os
 import os.path
 from collections.abc import Iterable
 from typing import (Any, Dict, Iterator, List, Optional, Tuple, TypedDict,
@@ -1475,8 +1476,11 @@ class SimulationResults(JsonSerializable):
         filename : src
             Name of the file to save the SimulationResults object.
         """
+        # We write to a temporary file and then rename it to the desired name.
+        # That way an interruption while saving never leaves a truncated file.
+        tmp_filename = '{0}.tmp'.format(filename)
         # For python3 compatibility the file must be opened in binary mode
-        with open(filename, 'wb') as output:
+        with open(tmp_filename, 'wb') as output:
             # We use the protocol version 2, since it is the highest
             # protocol that is supported by both python 2 and python
             # 3. Note that we still need to be careful when unpickling,
@@ -1485,6 +1489,7 @@ class SimulationResults(JsonSerializable):
             # solve this in the `load_from_config_file` method by
             # specifying the encoding when unpickling the file.
             pickle.dump(self, output, protocol=2)
+        os.replace(tmp_filename, filename)
 
     def _save_to_json(self, filename: str) -> None:
         """
@@ -1496,8 +1501,11 @@ class SimulationResults(JsonSerializable):
         filename : src
             Name of the file to save the SimulationResults object.
         """
-        with open(filename, 'w') as output:
+        # See the comment in `_save_to_pickle` about the temporary file
+        tmp_filename = '{0}.tmp'.format(filename)
+        with open(tmp_filename, 'w') as output:
             output.write(self.to_json())
+        os.replace(tmp_filename, filename)
 
     def save_to_file(self, filename: str) -> str:
         """
